@@ -183,13 +183,12 @@ theorem C04_active_partial (kd : Kind) (hk : kd.zeroKeyFallback = false) (t : Ta
   · rcases List.mem_cons.mp h with h | h
     · subst h; rfl
     · rcases hr with hr | hr <;> subst hr <;> simp only [decide, hk, dhT] at h
-      · exact hseal _ _ _ _ (by decide) f h
-      · simp [dataFrames] at h
-        cases up <;> simp [dataFrames] at h
+      · exact hseal _ _ _ _ rfl f h
+      · cases up <;> simp [dataFrames] at h
   · rcases hi with hi | hi <;> subst hi <;> simp only [decide, hk, dhT] at h
     · rcases List.mem_cons.mp h with h | h
       · subst h; rfl
-      · exact hseal _ _ _ _ (by decide) f h
+      · exact hseal _ _ _ _ rfl f h
     · simp at h
 
 /-- The two kinds with the plaintext fallback are exactly UDP and ICMP (what `C04_active_partial`
